@@ -338,7 +338,7 @@ theorem mem_entPrefix {x : Ent} {l : List Ent} (h : x ∈ entPrefix l) : x ∈ l
       · exact .inl h
       · exact .inr (ih h)
 
-theorem filtRun_cons (p : CParams) (st : FState) (e : Ent) (es : List Ent) :
+theorem filtRun_cons_c31 (p : CParams) (st : FState) (e : Ent) (es : List Ent) :
     filtRun p st (e :: es) =
       if (filtStep p st e).2 then e :: filtRun p (filtStep p st e).1 es
       else filtRun p (filtStep p st e).1 es := rfl
@@ -369,7 +369,7 @@ theorem filtRun_liveEnts (p : CParams) (hp : p.dropPrefixes = []) (k : Bytes) (e
   induction es generalizing st with
   | nil => rfl
   | cons e rest ih =>
-    rw [filtRun_cons]
+    rw [filtRun_cons_c31]
     by_cases hk : e.key = k
     · subst hk
       have hmem : e ∈ liveEnts e.key (e :: rest) := by
